@@ -26,6 +26,8 @@ func main() {
 	switch os.Args[1] {
 	case "fn":
 		os.Exit(cmdFn(os.Args[2:]))
+	case "sweep":
+		os.Exit(cmdSweep(os.Args[2:]))
 	case "static":
 		// pverif static <kind> <pkgrel> k=v ... : run one static obligation kind ad hoc (development aid)
 		prog, err := LoadProg([]string{os.Args[3]})
